@@ -39,6 +39,7 @@ def run(chk, repo):
     r1(chk, repo, d)
     r2(chk, repo, d)
     r4(chk, repo, d)
+    formats_unchanged(chk, repo)
     chk.doc("R06.6", "lookup hands out the map element, not a copy")
     lookup_in_place(chk, repo)
     chk.doc("R01.9", "see R06.5")
@@ -95,6 +96,50 @@ def lookup_in_place(chk, repo):
                    "then atomic only on a private copy, and concurrent "
                    "instances overwrite each other's sums when it is "
                    "written back"))
+
+
+def formats_unchanged(chk, repo, rule="R06.4"):
+    """every descriptor's fmt_addr() hands the declared format to the
+    memory access as it is: the in-place add is atomic for the formats
+    q Q i I x, and a descriptor that dresses the format up (a byte-order
+    prefix, another letter) silently turns the update into load / add /
+    store.  By abstract execution of every fmt_addr in the package."""
+    n = 0
+    for ci in sorted(repo.classes.values(), key=lambda c: c.qualname):
+        fa = ci.methods.get("fmt_addr")
+        if fa is None or ci.module.name.endswith("_test"):
+            continue
+        n += 1
+        chk.analysed(ci.qualname + ".fmt_addr")
+        bad = []
+        for fmt in ("I", "i", "Q", "q", "x", "H", "B", "<I", (3, 1), 5):
+            is_pv = "size" in {a.attr for a in ast.walk(fa) if isinstance(
+                a, ast.Attribute) and unparse(a.value) == "self"}
+            if isinstance(fmt, int) and not is_pv:
+                continue
+            if isinstance(fmt, tuple) and is_pv:
+                continue
+            me = Obj(ci, {"fmt": fmt, "size": fmt, "name": "v",
+                          "relative_addr": -16, "address": 14,
+                          "position": 3, "sm": Opaque("sm"),
+                          "terminal": Opaque("terminal"),
+                          "_start": ("hook", lambda *a: 30)})
+            inst = Obj(None, {"v": 24, "addr_offset": 4})
+            try:
+                r = Evaluator(repo, ci.module, ci).call_function(
+                    fa, [me, inst], cls=ci)
+            except (Unknown, Raised) as e:
+                raise AnalysisError(f"{ci.qualname}.fmt_addr: cannot be "
+                                    f"evaluated for {fmt!r}: {e}")
+            want = (fmt, 1) if isinstance(fmt, int) else fmt
+            if not isinstance(r, tuple) or len(r) != 2 or r[0] != want:
+                bad.append(f"declared {fmt!r}: accessed as "
+                           f"{r[0] if isinstance(r, tuple) and r else r!r}")
+        chk.ob(rule, ci.qualname + ".fmt_addr", "the declared format reaches "
+               "the memory access unchanged", not bad, fa,
+               "; ".join(bad[:3]) or "formats I i Q q x H B <I and bit "
+               "fields")
+    chk.floor(rule, "fmt_addr implementations", n, 5)
 
 
 def r1(chk, repo, d):
